@@ -352,6 +352,27 @@ def backward (m : POMDP) : List (Nat × Nat) → Vec
 /-- the joint distribution of (previous state, next state, observation) under belief `b` and action `a` -/
 def joint (m : POMDP) (b : Vec) (a : Nat) (s s1 o : Nat) : Rat := b s * m.T s a s1 * m.Ob s1 a o
 
+/-! ## simulated trajectories (`sampleSOR`) -/
+
+/-- one simulated step `(a, s1, o)` from state `s` that the tables allow -/
+def Consistent (m : POMDP) : Nat → List (Nat × Nat × Nat) → Prop
+  | _, [] => True
+  | s, (a, s1, o) :: h => a < m.A ∧ s1 < m.S ∧ o < m.O ∧ 0 < m.T s a s1 ∧ 0 < m.Ob s1 a o ∧ Consistent m s1 h
+
+/-- the state the trajectory ends in -/
+def endState : Nat → List (Nat × Nat × Nat) → Nat
+  | s, [] => s
+  | _, (_, s1, _) :: h => endState s1 h
+
+/-- what the agent sees of it -/
+def observed (h : List (Nat × Nat × Nat)) : List (Nat × Nat) := h.map (fun x => (x.1, x.2.2))
+
+/-- decidable form of `Consistent` for the driver -/
+def consistentB (m : POMDP) : Nat → List (Nat × Nat × Nat) → Bool
+  | _, [] => true
+  | s, (a, s1, o) :: h =>
+    decide (a < m.A) && decide (s1 < m.S) && decide (o < m.O) && decide (0 < m.T s a s1) && decide (0 < m.Ob s1 a o) && consistentB m s1 h
+
 /-! ## decidable checkers evaluated by the driver on the library's exact outputs (L3) -/
 
 /-- the reported unnormalised update is entry-wise the Bayes weight -/
